@@ -149,6 +149,30 @@ func (l *recLogDB) SaveRaftState(uds []pb.Update, worker uint64) error {
 	return err
 }
 
+// a locally taken snapshot is recorded in the log store by the snapshotter (snapshot worker)
+func (l *recLogDB) SaveSnapshots(uds []pb.Update) error {
+	err := l.ILogDB.SaveSnapshots(uds)
+	if err == nil {
+		l.h.snapshotsRecorded(uds)
+	}
+	return err
+}
+
+func (h *hostRec) snapshotsRecorded(uds []pb.Update) {
+	h.mu.Lock()
+	defer h.mu.Unlock()
+	if h.crashed {
+		return
+	}
+	h.batch++
+	for _, u := range uds {
+		e := event{kind: 'P', k: key{u.ShardID, u.ReplicaID}, worker: 0, batch: h.batch,
+			u: upd{shard: u.ShardID, replica: u.ReplicaID, snapIndex: u.Snapshot.Index, snapTerm: u.Snapshot.Term, fast: true}}
+		h.events = append(h.events, e)
+		h.rep(e.k).step(e)
+	}
+}
+
 type recLogDBFactory struct {
 	inner config.LogDBFactory
 	h     *hostRec
@@ -269,6 +293,8 @@ type cluster struct {
 	members    map[uint64]dragonboat.Target
 	rnd        *vh.Rand
 	completed  map[uint64][]uint64 // shard -> ids of proposals reported Completed
+	compactionOverhead uint64
+	beforeStartReplicas func() // called by restartHost after the store was read back
 	nextID     uint64
 	notes      map[string]int
 	mu         sync.Mutex
@@ -296,6 +322,10 @@ func quietLogs() {
 }
 
 func newCluster(seed uint64, useTan bool, execShards uint64, nShards int, saveDelay time.Duration) *cluster {
+	return newClusterN(seed, useTan, execShards, nShards, 3, saveDelay)
+}
+
+func newClusterN(seed uint64, useTan bool, execShards uint64, nShards int, nHosts int, saveDelay time.Duration) *cluster {
 	quietLogs()
 	c := &cluster{useTan: useTan, execShards: execShards, rnd: vh.NewRand(seed), completed: map[uint64][]uint64{},
 		members: map[uint64]dragonboat.Target{}, notes: map[string]int{}}
@@ -303,7 +333,7 @@ func newCluster(seed uint64, useTan bool, execShards uint64, nShards int, saveDe
 	for s := 1; s <= nShards; s++ {
 		c.shards = append(c.shards, uint64(s))
 	}
-	for i := 0; i < 3; i++ {
+	for i := 0; i < nHosts; i++ {
 		h := &host{addr: fmt.Sprintf("%s-host%d", c.tag, i+1), dir: fmt.Sprintf("/c04/host%d", i+1)}
 		h.rec = &hostRec{id: i + 1, execShards: execShards, crashAt: -1, crashedC: make(chan struct{}),
 			fs: gvfs.NewStrictMem(), saveDelay: saveDelay, mon: map[key]*repState{}, inflight: map[uint64][]upd{}}
@@ -349,7 +379,7 @@ func (c *cluster) startReplicas(i int, restart bool) error {
 	h := c.hosts[i]
 	for _, s := range c.shards {
 		rc := config.Config{ReplicaID: uint64(i + 1), ShardID: s, ElectionRTT: 20, HeartbeatRTT: 4, CheckQuorum: true,
-			PreVote: s%2 == 0}
+			PreVote: s%2 == 0, CompactionOverhead: c.compactionOverhead}
 		k := key{s, uint64(i + 1)}
 		rec := h.rec
 		create := func(shardID, replicaID uint64) sm.IStateMachine {
@@ -623,6 +653,9 @@ func (c *cluster) restartHost(i int) error {
 		}
 		c.note("recoveries_compared")
 	}
+	if c.beforeStartReplicas != nil {
+		c.beforeStartReplicas()
+	}
 	var err error
 	p := vh.Catch(func() { err = c.startReplicas(i, true) })
 	if p != "" || err != nil {
@@ -715,4 +748,74 @@ func liveRun(seed uint64, useTan bool, execShards uint64, tier string, saveDelay
 		h.rec.mu.Unlock()
 	}
 	return traces, c.notes, nil
+}
+
+
+// exportRun: one host, one single-replica shard with a small CompactionOverhead. Proposals, a
+// regular snapshot (recorded in the log store; compaction below it is legitimate), more
+// proposals, an EXPORTED snapshot (written to a user directory, not recorded for the replica),
+// a few more proposals so that the pending log compaction runs, clean restart through the
+// real NodeHost: what the store returns is compared with the shadow (every acknowledged entry
+// above the latest recorded snapshot must still be there), the replica must start, and every
+// completed proposal must be readable.
+func exportRun(seed uint64, useTan bool, partial func([]event)) (trace []event, notes map[string]int, err error) {
+	c := newClusterN(seed, useTan, 1, 1, 1, 0)
+	c.beforeStartReplicas = func() {
+		h := c.hosts[0]
+		h.rec.mu.Lock()
+		evs := append([]event(nil), h.rec.events...)
+		h.rec.mu.Unlock()
+		partial(evs)
+	}
+	c.shards = []uint64{5}
+	c.compactionOverhead = 2
+	defer c.close()
+	defer func() {
+		if err == errAborted {
+			err = nil
+		}
+		notes = c.notes
+		h := c.hosts[0]
+		h.rec.mu.Lock()
+		trace = append([]event(nil), h.rec.events...)
+		h.rec.mu.Unlock()
+	}()
+	if err = c.start(); err != nil {
+		return
+	}
+	if !c.waitLeaders(10 * time.Second) {
+		err = fmt.Errorf("export run: no leader")
+		return
+	}
+	h := c.hosts[0]
+	c.propose(12, 2*time.Second)
+	snapshot := func(opt dragonboat.SnapshotOption, what string) {
+		ctx, cancel := context.WithTimeout(context.Background(), 3*time.Second)
+		defer cancel()
+		if _, e := h.nh.SyncRequestSnapshot(ctx, 5, opt); e != nil {
+			c.note(what + "_failed")
+		} else {
+			c.note(what)
+		}
+	}
+	snapshot(dragonboat.SnapshotOption{}, "regular_snapshots")
+	c.propose(10, 2*time.Second)
+	_ = h.rec.fs.MkdirAll("/c04/export", 0755)
+	snapshot(dragonboat.SnapshotOption{Exported: true, ExportPath: "/c04/export"}, "exported_snapshots")
+	c.propose(3, 2*time.Second)
+	time.Sleep(100 * time.Millisecond)
+	// clean restart
+	h.nh.Close()
+	h.nh = nil
+	if err = c.restartHost(0); err != nil {
+		return
+	}
+	if !c.waitLeaders(10 * time.Second) {
+		err = fmt.Errorf("export run: no leader after the restart")
+		return
+	}
+	c.checkCompleted(2 * time.Second)
+	c.propose(2, 2*time.Second)
+	c.close()
+	return
 }
